@@ -110,7 +110,7 @@ func C02(r *eng.Run) {
 	if r.Thorough() {
 		nlead = 3
 	}
-	leads := LeadSweep(nlead)
+	leads := append(LeadSweep(nlead), WordShapes()...)
 	smx := SmallShapes()
 	r.Bounds["lead_prefix_digits"] = nlead
 	r.Par(len(leads), func(w *eng.W, i int) {
